@@ -68,6 +68,8 @@ pub struct ReqCfg {
     /// headers added in the Prepare state, in order
     pub added: Vec<(String, Vec<u8>)>,
     pub despite: bool,
+    /// call send_body_despite_method() a second time (must be harmless)
+    pub despite_twice: bool,
 }
 
 impl ReqCfg {
@@ -79,6 +81,7 @@ impl ReqCfg {
             orig: vec![],
             added: vec![],
             despite: false,
+            despite_twice: false,
         }
     }
     pub fn h(mut self, name: &str, value: &[u8]) -> ReqCfg {
@@ -161,6 +164,9 @@ pub fn apply_prepare(flow: &mut F<Prepare>, cfg: &ReqCfg) -> Result<(), Error> {
     }
     if cfg.despite {
         flow.send_body_despite_method();
+        if cfg.despite_twice {
+            flow.send_body_despite_method();
+        }
     }
     Ok(())
 }
@@ -273,7 +279,13 @@ impl Sched {
         Sched {
             head_out: *rng.pick(&[Prof::Big, Prof::Mixed, Prof::Mixed, Prof::Fixed(64), Prof::Fixed(128)]),
             body_in: *rng.pick(profs),
-            body_out: *rng.pick(profs),
+            // one in four schedules sends the body through a fixed buffer sitting on a boundary of the
+            // chunk format: smallest chunk, hex digit boundaries 16/256/4096 plus overhead, chunk size
+            body_out: if rng.chance(1, 4) {
+                Prof::Fixed(*rng.pick(&[6usize, 7, 8, 20, 21, 22, 261, 262, 263, 4102, 4103, 4104, 10247, 10248, 10249]))
+            } else {
+                *rng.pick(profs)
+            },
             arrive: *rng.pick(profs),
             read_out: *rng.pick(profs),
             queries: rng.chance(1, 2),
@@ -448,6 +460,8 @@ pub struct Driver<'a> {
     pub response_log: Vec<(usize, usize, Option<u16>)>,
     /// stream offset at which the response body started
     pub body_start: usize,
+    /// a body write with input >= 1 and output space >= 6 (>= 1 for a sized body) made no progress
+    pub stalled_with_room: Option<(usize, usize)>,
 }
 
 impl<'a> Driver<'a> {
@@ -485,6 +499,7 @@ impl<'a> Driver<'a> {
             await_log: vec![],
             response_log: vec![],
             body_start: 0,
+            stalled_with_room: None,
         }
     }
 
@@ -731,6 +746,9 @@ impl<'a> Driver<'a> {
                         }
                         self.body_pos += c;
                         self.body_out.extend_from_slice(&buf[..p]);
+                        if c == 0 && p == 0 && k >= 1 && out >= 6 && self.stalled_with_room.is_none() {
+                            self.stalled_with_room = Some((k, out));
+                        }
                         if c == 0 && p == 0 && !f.can_proceed() {
                             self.stall += 1;
                         } else {
@@ -1065,7 +1083,17 @@ impl BodySender {
 /// A sender positioned right after the request head. `cl` = Some(n): Content-Length n,
 /// None: chunked (the default framing; `explicit_te` adds the header by hand).
 pub fn body_sender(cl: Option<u64>, explicit_te: bool, use_call: bool) -> Result<BodySender, String> {
-    let mut b = Request::builder().method("POST").uri("http://h.test/up");
+    body_sender_ex(cl, explicit_te, use_call, 0)
+}
+
+/// `variant` bit 0: explicit Host header; bit 1 (Flow only): a GET turned into a body request by
+/// send_body_despite_method() (default framing = chunked unless `cl`)
+pub fn body_sender_ex(cl: Option<u64>, explicit_te: bool, use_call: bool, variant: u8) -> Result<BodySender, String> {
+    let despite = variant & 2 != 0 && !use_call;
+    let mut b = Request::builder().method(if despite { "GET" } else { "POST" }).uri("http://h.test/up");
+    if variant & 1 != 0 {
+        b = b.header("host", "h.test");
+    }
     if let Some(n) = cl {
         b = b.header("content-length", n.to_string());
     } else if explicit_te {
@@ -1081,7 +1109,11 @@ pub fn body_sender(cl: Option<u64>, explicit_te: bool, use_call: bool) -> Result
         }
         Ok(BodySender::Call(c))
     } else {
-        let mut f = Flow::new(req).map_err(|e| format!("{:?}", e))?.proceed();
+        let mut p = Flow::new(req).map_err(|e| format!("{:?}", e))?;
+        if despite {
+            p.send_body_despite_method();
+        }
+        let mut f = p.proceed();
         f.write(&mut buf).map_err(|e| format!("{:?}", e))?;
         match f.proceed().map_err(|e| format!("{:?}", e))? {
             Some(SendRequestResult::SendBody(s)) => Ok(BodySender::Flow(s)),
